@@ -325,13 +325,14 @@ static std::string handle(std::string const& line) {
 		if (first) o << "-";
 		return o.str();
 	}
-	if (kind == 'A') {   // A invert T | sizes | labels | scores  : NegativeAUC on 1-d predictions
+	if (kind == 'A') {   // A invert T [dim] | sizes | labels | scores (n*dim numbers) : NegativeAUC on dim-column predictions (default 1)
 		bool inv = s[0][1] == "1"; omp_set_num_threads(std::stoi(s[0][2]));
+		std::size_t dim = s[0].size() > 3 ? std::stoul(s[0][3]) : 1;
 		auto sz = sizes(s[1]); DV labs = nums(s[2]), sc = nums(s[3]);
 		NegativeAUC<unsigned int, RealVector> auc(inv);
 		// an empty data set cannot be built with createDataFromRange: hand over default-constructed containers
 		double a = labs.empty() ? auc.eval(Data<unsigned int>(), Data<RealVector>())
-		                        : auc.eval(mkData(uints(labs), sz), mkData(rows(sc, sc.size(), 1), sz));
+		                        : auc.eval(mkData(uints(labs), sz), mkData(rows(sc, labs.size(), dim), sz));
 		o << "a=" << hx(a);
 		return o.str();
 	}
